@@ -198,6 +198,14 @@ class StmtMixin(CallMixin):
                 items = v.t.items
             elif isinstance(v.ty, Tup):
                 items = [T.tup_get(v, i) for i in range(len(v.ty.items))]
+                fa = getattr(v.ty, "flex_arity", None)
+                if fa is not None:
+                    # a tuple whose real length depends on context (wire-protocol version): modelled at its
+                    # maximal width; unpacking into k names raises ValueError unless the real length is k
+                    k = len(tgt.elts)
+                    n = self.spec_eval(fa, st, old=self.entry)
+                    self.fork_raise(st, n.t != T.intval(k).t, "ValueError")
+                    items = items[:k]
                 for it in items:
                     self.assume_valid(st, it)
             else:
